@@ -22,6 +22,9 @@ chk("C15", "C15_targets, C15_selected_files, C15_content_in_place, C15_failure_p
     "Same trusted base as C13; crash atomicity of truncate-then-write, symlink cycles and concurrent modification of the tree are not modelled (named in DESIGN.md 5.15).",
     "Coq proof over translator-regenerated effect model + vm_compute correspondence with the real CLI on generated trees", "DESIGN.md 5.15")
 
+chk("C05", "For the four suite-filtering transformers (pass, literal statements, asserts, __debug__ blocks) and any program skeleton: output and input are equal once the documented rewrite is erased from both at every depth (C05_remove_pass/_literal_statements/_asserts/_debug, generic C05_suite_filter_generic), asserts+debug leave exactly what python -O runs (C05_equals_python_O), an `if` is removed only in the documented forms (C05_debug_only_documented_forms), suites are never left empty, a transformer without targets is the identity, imports are merged without reordering and never across a star import/another module (C05_combine_imports_order), only `object` bases disappear; every transformer is called exactly under its own switch in the statement list of minify() re-read from the source (C05_switch_off_means_not_called / _on_means_called / _stage_order). Partial: RemoveExplicitReturnNone only for simple statements; annotation, exception-bracket and posarg rewrites are decided by the canon_O oracle, not in Coq.",
+    "Trusted: Coq kernel; Model/Struct.v transcription (tied by leg T: vm_compute vs each real transformer on generated programs with every statement kind in every suite position); translator/pipeline.py; the AST->skeleton abstraction; the second implementation of canon_O in the harness. Three genuine defects found and fixed (D1-D3).",
+    "Coq proof over statement skeletons + translator-extracted gates + vm_compute correspondence per transformer + canon_O differential oracle", "DESIGN.md 5.5")
 chk("C07", "C07_fold_preserves_eval: for every expression tree (any depth, any context) and every printer/interpreter satisfying the stated premises, evaluating the folded tree gives identically the same value (type, value, sign of zero, infinities) or raises exactly when the original does; C07_one_step; C07_no_nan_literal, C07_shorter_or_untouched, C07_div_pow_never_folded, C07_only_constant_operands hold for ANY oracles. The proof turns the code's `==`/type check into identity through the repr-sign device (the candidate is an unsigned literal, or its negation).",
     "Proof relative to premises HL/HE/HEv/HRc (what a re-parsing Num candidate evaluates to) and compositionality of evaluation, all sampled against CPython on every run; Model/Fold.v is a hand transcription tied to the code by leg F (vm_compute with table oracles recorded from the real run). Exceptions identified up to 'raises' in the theorem. Context-dependent length (parenthesisation) is covered by the oracle only.",
     "Coq proof over an oracle-parametric model of visit_BinOp + vm_compute correspondence (decisions and literals) + eval differential oracle", "DESIGN.md 5.7")
